@@ -1265,8 +1265,9 @@ func (c *codegen) gen2(k fnKey, flags *fnSig, probe bool) (fnOut, *fnSig) {
 	fd := c.fns[k]
 	sig := &fnSig{monadic: flags.monadic, grow: flags.grow, fuel: flags.fuel}
 	f := &fnCtx{key: k, fd: fd, used: map[string]bool{}, errSiteOf: map[token.Pos]int{}, sig: sig, probe: probe}
+	prev := c.cur // restored also while a refusal unwinds through the caller's frames
 	c.cur = f
-	defer func() { c.cur = nil }()
+	defer func() { c.cur = prev }()
 	if fd.Body == nil {
 		c.fail(fd, "function without body")
 	}
